@@ -59,7 +59,15 @@ type Axiom struct {
 	Note  string
 }
 
+type Def struct {
+	Pkg, Name, Params, Text string
+	Node                    SpecNode
+	File                    string
+	Line                    int
+}
+
 type ContractSet struct {
+	Defs   map[string]*Def
 	Funcs  map[string]*Contract // key pkgpath + "::" + Key
 	Order  []string
 	Lemmas []*Lemma
@@ -71,8 +79,8 @@ var loopRe = regexp.MustCompile(`^loop\s+(\d+)\s*:\s*(.*)$`)
 
 func isKeyword(w string) bool {
 	switch w {
-	case "func", "props", "results", "requires", "ensures", "modifies", "loop", "panics_when", "may_panic", "assert", "assume",
-		"axiom", "lemma", "trusted", "inline", "ghost", "decreases", "allocates", "induction", "note", "end", "use", "opaque", "bounded", "template", "havoc", "order_independent", "effect", "emits", "after", "invariant":
+	case "def", "func", "props", "results", "requires", "ensures", "modifies", "loop", "panics_when", "may_panic", "assert", "assume",
+		"axiom", "lemma", "trusted", "inline", "ghost", "decreases", "allocates", "induction", "note", "end", "use", "opaque", "bounded", "template", "havoc", "order_independent", "effect", "emits", "after", "invariant", "before_stmt", "after_stmt", "effects_only":
 		return true
 	}
 	return false
@@ -119,6 +127,24 @@ func (cs *ContractSet) parseFile(pkgPath, fileName string, f *ast.File, lineOf f
 				}
 				cs.Funcs[k] = cur
 				cs.Order = append(cs.Order, k)
+				continue
+			case "def":
+				// def name(params) = body
+				rest := strings.TrimSpace(txt[3:])
+				i := strings.Index(rest, "(")
+				j := strings.Index(rest, ") =")
+				if i < 0 || j < i {
+					return fmt.Errorf("%s:%d: bad def header", fileName, line)
+				}
+				d := &Def{Pkg: pkgPath, Name: strings.TrimSpace(rest[:i]), Params: rest[i+1 : j], File: fileName, Line: line}
+				if cs.Defs == nil {
+					cs.Defs = map[string]*Def{}
+				}
+				cs.Defs[pkgPath+"::"+d.Name] = d
+				pc := &Clause{Kind: "deftext", Text: strings.TrimSpace(rest[j+3:])}
+				last = pc
+				defer func() { d.Text = pc.Text }()
+				cur, curLemma = nil, nil
 				continue
 			case "lemma":
 				// lemma Name(params)
